@@ -13,6 +13,7 @@ from ops import truthy, asz, zand, zor, znot
 from core import (SVal, TupleVal, LocalDict, FuncVal, ExcVal, KRef, KInt, KReal, KBool, CheckerError,
                   fresh_name, I, B)
 from state import St, ALIVE
+from contracts import clause
 from engine_base import EngineBase, Frame, Obligation
 from engine_expr import ExprMixin
 from engine_stmt import StmtMixin, NEXT
@@ -55,17 +56,25 @@ class Engine(EngineBase, ExprMixin, StmtMixin, CallMixin, PreludeMixin, FoldMixi
         if node.args.vararg or node.args.kwarg:
             raise CheckerError('varargs in function under contract %s' % qual)
         for g, k in c.ghost.items():
-            env[g] = self.symbolic(st, self.reg.kind(k), g)
+            env[g] = self.symbolic(st, self.reg.kind(k[0] if isinstance(k, tuple) else k), g)
         # closure variables of nested functions are declared as '^name' types
         for p, k in c.types.items():
             if p.startswith('^'):
                 fr.closure[p[1:]] = self.symbolic(st, self.reg.kind(k), p[1:])
         st.env = dict(env)
+        for aname, atext, _ in self.reg.axioms_text:
+            af = self.spec_frame(None, 'axiom:' + aname, None, {})
+            saved_env = st.env
+            st.env = {}
+            st.assume(asz(truthy(self.ev1(self.parse_spec(atext), st, af))))
+            st.env = saved_env
+            self.stats['assumed_contracts'].add('axiom:' + aname)
         sf = self.spec_frame(mod, qual, cname, env)
         sf.closure.update(fr.closure)
         saved = st.env
         st.env = {}
         for text in c.requires:
+            text = clause(text)[0]
             st.assume(asz(truthy(self.ev1(self.parse_spec(text), st, sf))))
         st.env = saved
         self.flush_axioms(st)
@@ -113,8 +122,9 @@ class Engine(EngineBase, ExprMixin, StmtMixin, CallMixin, PreludeMixin, FoldMixi
         st.env = {}
         try:
             for j, text in enumerate(ensures):
+                text, tags = clause(text)
                 v = self.ev1(self.parse_spec(text), st, sf)
-                self.oblige(st, '%s#%s[%d]' % (c.qual, label, j), truthy(v), {'text': text})
+                self.oblige(st, '%s#%s[%d]' % (c.qual, label, j), truthy(v), {'text': text, 'tags': tags})
         finally:
             st.env = saved
 
